@@ -272,7 +272,7 @@ def run(tier: str) -> int:
             cs = dict(MaxLen=maxlen, Sharing=sharing, Tunes=tunes, Leak="none", Emit=False, NSlices=1, Slice=0, EmitLen=3)
             stages.model_check(chk, "Lifecycle", cs, ["NoLeak", "UpdateIsRefit"], properties=["ParamsStable"], wd=wd,
                                label=f"A:{sharing}-{tunes}-len{maxlen}")
-            nsl = 160 if tier == "quick" else 16
+            nsl = 256 if tier == "quick" else 16
             sl = [chk.seed % nsl, (chk.seed + 7) % nsl] if tier == "quick" else None
             cs3 = dict(cs, MaxLen=3)
             got = stages.emit_cases(chk, "Lifecycle", cs3, wd=wd, label=f"B:{sharing}-{tunes}-len3", invariants=("EmitHist",),
